@@ -103,12 +103,26 @@ class DataParser(MCNP_Parser):
     # Manually specifying because more levels break SLY. Might be hitting some hard coded limit.
     @_(
         "NUMBER_WORD",
-        "NUM_MULTIPLY",
         "NUMBER_WORD padding ",
-        "NUM_MULTIPLY padding",
     )
     def text_phrase(self, p):
         return self._flush_phrase(p, str)
+
+    # a library identifier that looks like a multiply shortcut (plib=70m) is text only as the value of a parameter;
+    # among the entries of a data input ``2m`` is the shortcut
+    @_(
+        "classifier param_seperator NUM_MULTIPLY",
+        "classifier param_seperator NUM_MULTIPLY padding",
+    )
+    def parameter(self, p):
+        return syntax_node.SyntaxNode(
+            p.classifier.prefix.value,
+            {
+                "classifier": p.classifier,
+                "seperator": p.param_seperator,
+                "data": self._flush_phrase(list(p)[2:], str),
+            },
+        )
 
     @_("text_phrase", "text_sequence text_phrase")
     def text_sequence(self, p):
